@@ -71,6 +71,84 @@ def _unraisable(u):
         '%s: %s in %r' % (type(u.exc_value).__name__, u.exc_value, u.object))
 
 
+CONFIG_VALUES = {'repr': repr, 'str': str}
+
+
+def draw_config(rng, p=0.2, exclude=()):
+    """A random perturbation of petl.config attributes that must not change
+    any result a check looks at (the ones a check does look at are passed in
+    `exclude`).  JSON-safe: callables by name."""
+    if rng.random() >= p:
+        return None
+    pool = {'display_vrepr': ['repr'], 'display_limit': [1, 3],
+            'display_index_header': [True], 'look_vrepr': ['str'],
+            'look_limit': [2, 7], 'look_index_header': [True],
+            'look_style': ['simple', 'minimal'], 'see_limit': [2],
+            'see_vrepr': ['str'], 'see_index_header': [True],
+            'failonerror': [True, 'inline'], 'sort_buffersize': [2, 3, None]}
+    names = [n for n in sorted(pool) if n not in exclude]
+    out = {}
+    for n in rng.sample(names, rng.choice([1, 2, 3])):
+        out[n] = rng.choice(pool[n])
+    if rng.random() < 0.4:
+        out['_debug_logging'] = True
+    return out
+
+
+class _FormattingHandler(object):
+    pass
+
+
+def _debug_logging(on):
+    """petl logs through the logging module; with DEBUG enabled and a handler
+    that formats the records, every argument of a debug() call is rendered
+    (repr of a table evaluates it!).  A realistic configuration: petl's own
+    pytest.ini runs with log_level=DEBUG."""
+    import logging
+    lg = logging.getLogger('petl')
+    if on:
+        class H(logging.Handler):
+            def emit(self, record):
+                record.getMessage()
+        h = H()
+        h.setLevel(logging.DEBUG)
+        lg.addHandler(h)
+        lg.setLevel(logging.DEBUG)
+        return h
+    return None
+
+
+class applied_config(object):
+    def __init__(self, cfg):
+        self.cfg = dict(cfg or {})
+        self.saved = {}
+        self.handler = None
+        self.debuglog = self.cfg.pop('_debug_logging', False)
+
+    def __enter__(self):
+        if self.debuglog:
+            self.handler = _debug_logging(True)
+        if self.cfg:
+            import petl.config as config
+            for k, v in self.cfg.items():
+                self.saved[k] = getattr(config, k)
+                setattr(config, k, CONFIG_VALUES.get(v, v)
+                        if isinstance(v, str) and k.endswith('vrepr') else v)
+        return self
+
+    def __exit__(self, *a):
+        if self.handler is not None:
+            import logging
+            lg = logging.getLogger('petl')
+            lg.removeHandler(self.handler)
+            lg.setLevel(logging.ERROR)
+        if self.saved:
+            import petl.config as config
+            for k, v in self.saved.items():
+                setattr(config, k, v)
+        return False
+
+
 def run_guarded(mod, case, allowance=30):
     """Run one case; harness exceptions are kept apart from violations."""
     signal.signal(signal.SIGALRM, _alarm)
@@ -80,7 +158,8 @@ def run_guarded(mod, case, allowance=30):
     devices.CTX.unraisable = []
     sys.unraisablehook = _unraisable
     try:
-        out = mod.run_case(case)
+        with applied_config(case.get('config')):
+            out = mod.run_case(case)
     except CaseTimeout:
         out = outcome('hang', vclass='hang', msg='case did not finish in %ds'
                       % allowance, sig={'vclass': 'hang'})
